@@ -360,7 +360,7 @@ func runC11(rc *runCtx, ev *evidence) (int, bool) {
 	sort.Slice(findings, func(i, j int) bool { return findings[i].A+findings[i].Kind < findings[j].A+findings[j].Kind })
 	seenClass := map[string]bool{}
 	knownPrinted := map[string]bool{}
-	dir := filepath.Join(verifDir, "replays", "C11")
+	dir := filepath.Join(outDir, "replays", "C11")
 	os.MkdirAll(dir, 0o755)
 	for _, f := range findings {
 		class := c11Class(f.A, f.B)
